@@ -1,9 +1,966 @@
-//! C18 — not implemented yet.
-use crate::util::{Args, Out};
-use serde_json::{Value, json};
+//! C18 — generated Rust behaves like the VM: differential oracle between the bytecode VM
+//! and the Rust source emitted by `Context::emit_rust`, compiled with rustc and executed.
+//!
+//! Per case: (1) the program runs on the VM (CLI code path, no plugins beyond the audio
+//! driver's builtins); a program the VM refuses or crashes on is not a C18 case. (2) A
+//! plugin-free `ExecContext` (as in `rust_codegen_test.rs`) emits Rust; `Err` is a refusal
+//! and fine, a panic is counted and left to C03/C04. (3) The emitted source gets a `main`
+//! modelled on the repository's own test (host supplies `now` = sample index and
+//! `samplerate` = 48000, every external call is answered with an error, inputs per sample,
+//! every output word printed as hex bits), is compiled with plain `rustc --edition=2024`
+//! and run. Refuting events: rustc fails; the binary exits non-zero / dies by a signal;
+//! the number of output words of a sample differs; any output word differs from the VM's
+//! (bitwise, NaN == NaN).
 
-pub fn meta(_args: &Args) -> Value {
-    json!({"level": "exploration", "rule": "not implemented", "floor": {"quick": 1000000, "thorough": 1000000}})
+use super::progcase::{Case, feat_for, input_fn, minimise, norm};
+use super::{drive, replay_one};
+use crate::gens::core::{BinOp, Block, E, Program, Stmt, generate};
+use crate::run::{Backend, BuildError, RunError, run_program};
+use crate::util::{Args, Out, Rng, bits_eq, catch};
+use mimium_lang::utils::error::ReportableError;
+use mimium_lang::{Config, ExecContext};
+use serde_json::{Value, json};
+use std::path::{Path, PathBuf};
+use std::process::{Command, Stdio};
+use std::time::{Duration, Instant};
+
+// ------------------------------------------------------------------ child processes
+
+pub struct ChildOut {
+    /// exit code (None if killed by a signal)
+    pub code: Option<i32>,
+    pub signal: Option<i32>,
+    pub timed_out: bool,
+    pub stdout: String,
+    pub stderr: String,
+    pub ms: u128,
 }
-pub fn run(_args: &Args, _out: &mut Out) {}
-pub fn replay(_args: &Args, _out: &mut Out, _case: &Value) {}
+
+/// Run a command with stdout/stderr captured into files of `dir`, a wall-clock limit and an
+/// address-space limit (bytes; 0 = none). Err = could not even be started (harness trouble).
+fn run_child(mut cmd: Command, dir: &Path, tag: &str, timeout: Duration, as_limit: u64) -> Result<ChildOut, String> {
+    use std::os::unix::process::{CommandExt, ExitStatusExt};
+    let so = dir.join(format!("{tag}.stdout"));
+    let se = dir.join(format!("{tag}.stderr"));
+    let fo = std::fs::File::create(&so).map_err(|e| format!("create {so:?}: {e}"))?;
+    let fe = std::fs::File::create(&se).map_err(|e| format!("create {se:?}: {e}"))?;
+    cmd.stdin(Stdio::null()).stdout(fo).stderr(fe).current_dir(dir).env("RUST_BACKTRACE", "0");
+    if as_limit > 0 {
+        unsafe {
+            cmd.pre_exec(move || {
+                let lim = libc::rlimit { rlim_cur: as_limit, rlim_max: as_limit };
+                libc::setrlimit(libc::RLIMIT_AS, &lim);
+                let core = libc::rlimit { rlim_cur: 0, rlim_max: 0 };
+                libc::setrlimit(libc::RLIMIT_CORE, &core);
+                Ok(())
+            });
+        }
+    }
+    let t0 = Instant::now();
+    let mut child = cmd.spawn().map_err(|e| format!("spawn {tag}: {e}"))?;
+    let mut timed_out = false;
+    let status = loop {
+        match child.try_wait() {
+            Ok(Some(st)) => break st,
+            Ok(None) => {
+                if t0.elapsed() > timeout {
+                    timed_out = true;
+                    let _ = child.kill();
+                    break child.wait().map_err(|e| format!("wait {tag}: {e}"))?;
+                }
+                std::thread::sleep(Duration::from_millis(3));
+            }
+            Err(e) => return Err(format!("wait {tag}: {e}")),
+        }
+    };
+    let read = |p: &Path| -> String {
+        let b = std::fs::read(p).unwrap_or_default();
+        let b = if b.len() > 4_000_000 { b[..4_000_000].to_vec() } else { b };
+        String::from_utf8_lossy(&b).to_string()
+    };
+    Ok(ChildOut {
+        code: status.code(),
+        signal: status.signal(),
+        timed_out,
+        stdout: read(&so),
+        stderr: read(&se),
+        ms: t0.elapsed().as_millis(),
+    })
+}
+
+fn signame(s: i32) -> String {
+    match s {
+        4 => "SIGILL".into(),
+        6 => "SIGABRT".into(),
+        7 => "SIGBUS".into(),
+        8 => "SIGFPE".into(),
+        9 => "SIGKILL".into(),
+        11 => "SIGSEGV".into(),
+        15 => "SIGTERM".into(),
+        n => format!("SIG{n}"),
+    }
+}
+
+fn scratch_dir() -> PathBuf {
+    std::env::temp_dir().join(format!("mmv-rustgen-{}", std::process::id()))
+}
+
+/// scratch directories of workers that were killed (their pid is gone)
+fn remove_stale_scratch_dirs() {
+    let Ok(rd) = std::fs::read_dir(std::env::temp_dir()) else { return };
+    for e in rd.filter_map(|e| e.ok()) {
+        let name = e.file_name().to_string_lossy().to_string();
+        if let Some(pid) = name.strip_prefix("mmv-rustgen-")
+            && pid.chars().all(|c| c.is_ascii_digit())
+            && !Path::new(&format!("/proc/{pid}")).exists()
+        {
+            let _ = std::fs::remove_dir_all(e.path());
+        }
+    }
+}
+
+// ------------------------------------------------------------------ the harness `main`
+
+const HOST_DECLS: &str = r#"
+struct VerifHost {
+    now: f64,
+    sample_rate: f64,
+}
+
+impl MimiumHost for VerifHost {
+    fn call_ext(
+        &mut self,
+        name: &str,
+        _args: &[Word],
+        _ret_words: usize,
+    ) -> Result<Vec<Word>, String> {
+        Err(format!("unexpected external call: {}", name))
+    }
+
+    fn current_time(&mut self) -> f64 {
+        self.now
+    }
+
+    fn sample_rate(&mut self) -> f64 {
+        self.sample_rate
+    }
+}
+"#;
+
+/// `main` appended to the emitted source (cf. `compile_and_run_rust_fixture` in
+/// rust_codegen_test.rs): host with now/samplerate, optional `call_main`, then `n` calls of
+/// `call_dsp` with this sample's input words; one line of hex words per sample.
+fn harness_main(rust_src: &str, n: usize, ich: usize, inputs: &[u64]) -> String {
+    let mut s = String::with_capacity(rust_src.len() + 4096 + inputs.len() * 20);
+    s.push_str(rust_src);
+    s.push_str(HOST_DECLS);
+    s.push_str(&format!("static VERIF_INPUTS: [u64; {}] = [", inputs.len()));
+    for w in inputs {
+        s.push_str(&format!("0x{w:016x},"));
+    }
+    s.push_str("];\n");
+    s.push_str("fn main() {\n");
+    s.push_str("    let host = VerifHost { now: 0.0, sample_rate: 48_000.0 };\n");
+    s.push_str("    let mut program = MimiumProgram::with_host(host);\n");
+    if rust_src.contains("pub fn call_main") {
+        s.push_str("    if let Err(e) = program.call_main() { eprintln!(\"call_main error: {}\", e); std::process::exit(16); }\n");
+    }
+    s.push_str(&format!("    for t in 0..{n}usize {{\n"));
+    s.push_str("        program.host.now = t as f64;\n");
+    s.push_str(&format!("        let output = match program.call_dsp(&VERIF_INPUTS[t * {ich}..(t + 1) * {ich}]) {{\n"));
+    s.push_str("            Ok(o) => o,\n");
+    s.push_str("            Err(e) => { eprintln!(\"call_dsp error: {}\", e); std::process::exit(17); }\n");
+    s.push_str("        };\n");
+    s.push_str("        let mut line = String::from(\"S\");\n");
+    s.push_str("        for word in output { line.push_str(&format!(\" {:016x}\", word)); }\n");
+    s.push_str("        println!(\"{}\", line);\n");
+    s.push_str("    }\n}\n");
+    s
+}
+
+// ------------------------------------------------------------------ the oracle
+
+#[derive(Debug, Clone, Copy, PartialEq, Eq)]
+pub enum Stage {
+    /// the VM itself refuses / crashes: not a C18 case
+    VmRefused,
+    /// panic inside emit_rust: C03/C04's business, counted
+    EmitPanicked,
+    /// emit_rust = Err: refusal, fine
+    Refused,
+    RustcFailed,
+    RunFailed,
+    /// harness trouble / timeouts
+    Undecided,
+    /// binary ran to completion and its output was compared
+    Compared,
+}
+
+pub struct Checked {
+    pub violations: Vec<(String, String)>,
+    pub inconclusive: Option<String>,
+    pub stage: Stage,
+    pub note: String,
+    pub words_compared: usize,
+    pub samples_compared: usize,
+    pub nontrivial: bool,
+    pub rust_lines: usize,
+    pub rustc_ms: u128,
+    pub run_ms: u128,
+    pub has_call_main: bool,
+    pub channels: (usize, usize),
+}
+
+fn vm_outcome(e: &RunError) -> String {
+    match e {
+        RunError::Build(BuildError::Rejected(d)) => format!("rejected({})", d.first().map(|d| norm(&d.message)).unwrap_or_default()),
+        RunError::Build(BuildError::BackendRefused(s)) => format!("backend-refused({})", norm(s)),
+        RunError::Build(BuildError::NoDsp) => "no-dsp".into(),
+        RunError::Build(BuildError::Panicked(ph, p)) => format!("{}@{ph}", p.sig()),
+        RunError::DspPanic(_, p) => format!("{}@dsp", p.sig()),
+    }
+}
+
+/// digits collapsed, identifiers of generated registers/blocks do not matter
+fn class_of(line: &str, max: usize) -> String {
+    let mut o = String::new();
+    let mut last_n = false;
+    for ch in line.trim().chars() {
+        if o.len() >= max {
+            break;
+        }
+        if ch.is_ascii_digit() {
+            if !last_n {
+                o.push('N');
+            }
+            last_n = true;
+        } else {
+            last_n = false;
+            o.push(ch);
+        }
+    }
+    o
+}
+
+/// class tag of a rustc failure: first `error…` line; for a type mismatch also what was
+/// expected / found (first label line saying so)
+fn rustc_class(stderr: &str) -> String {
+    let l = stderr.lines().find(|l| l.starts_with("error")).unwrap_or("no error line");
+    // keep the error code, collapse digits in the message
+    let mut c = match (l.strip_prefix("error["), l.find(']')) {
+        (Some(_), Some(end)) => format!("{}{}", &l[..=end], class_of(&l[end + 1..], 110)),
+        _ => class_of(l, 110),
+    };
+    if l.contains("mismatched types")
+        && let Some(x) = stderr.lines().find_map(|l| l.find("expected `").map(|i| &l[i..]))
+    {
+        c.push_str(" / ");
+        c.push_str(&class_of(x, 70));
+    }
+    c
+}
+
+/// builtin functions of the VM (plugin/builtin_functins.rs) that the emitted runtime's own
+/// `call_ext` does not implement and hands to the host
+const LEFT_TO_HOST: [&str; 12] = ["round", "floor", "ceil", "not", "tan", "sinh", "cosh", "tanh", "asin", "acos", "atan", "atan2"];
+
+/// class tag of a failed run: panic message / error line of the harness main
+fn run_class(stderr: &str) -> String {
+    let lines: Vec<&str> = stderr.lines().collect();
+    if let Some(name) = stderr.find("unexpected external call: ").map(|i| &stderr[i + 26..]) {
+        let name: String = name.chars().take_while(|c| c.is_ascii_alphanumeric() || *c == '_' || *c == '$').collect();
+        if LEFT_TO_HOST.contains(&name.as_str()) {
+            return "core-math-builtin-left-to-host".into();
+        }
+        return format!("unexpected external call: {name}");
+    }
+    for (i, l) in lines.iter().enumerate() {
+        if l.contains("panicked at") {
+            // `thread 'main' panicked at file:line:col:` + message on the next line
+            if let Some(m) = lines.get(i + 1) {
+                return format!("panic: {}", class_of(m, 90));
+            }
+        }
+        if l.starts_with("call_dsp error:") || l.starts_with("call_main error:") {
+            return class_of(l, 100);
+        }
+        if l.contains("has overflowed its stack") {
+            return "stack overflow".into();
+        }
+    }
+    class_of(lines.first().copied().unwrap_or("no message"), 90)
+}
+
+fn rustc_path() -> String {
+    std::env::var("MMV_RUSTC").unwrap_or_else(|_| "rustc".to_string())
+}
+
+const RUSTC_TIMEOUT_S: u64 = 600;
+const RUN_TIMEOUT_S: u64 = 60;
+const RUSTC_AS_LIMIT: u64 = 8 << 30;
+const RUN_AS_LIMIT: u64 = 1 << 30;
+
+/// The oracle. Pure with respect to the event stream so that the minimiser can call it.
+/// `keep`: leave the scratch directory in place (developer aid).
+pub fn check(c: &Case, keep: bool) -> Checked {
+    let mut res = Checked {
+        violations: vec![],
+        inconclusive: None,
+        stage: Stage::Undecided,
+        note: String::new(),
+        words_compared: 0,
+        samples_compared: 0,
+        nontrivial: false,
+        rust_lines: 0,
+        rustc_ms: 0,
+        run_ms: 0,
+        has_call_main: false,
+        channels: (0, 0),
+    };
+    let inp = input_fn(c.input_seed, c.finite_inputs);
+    let path = c.path.as_ref().map(PathBuf::from);
+
+    // 1. the VM (reference side of this property)
+    let vm = match run_program(Backend::Vm, &c.src, false, c.n, &inp, false, path.clone()) {
+        Ok(r) => r,
+        Err(e) => {
+            res.stage = Stage::VmRefused;
+            res.note = vm_outcome(&e);
+            return res;
+        }
+    };
+    let (ich, och) = (vm.in_channels, vm.channels);
+    res.channels = (ich, och);
+
+    // 2. emit Rust from a plugin-free context, as rust_codegen_test.rs does
+    let emitted = catch(|| {
+        let mut ctx = ExecContext::new([].into_iter(), path.clone(), Config::default());
+        ctx.prepare_compiler();
+        let comp = ctx.get_compiler().expect("compiler prepared");
+        comp.emit_rust(&c.src).map(|o| (o.source, o.io_channels)).map_err(|errs| errs.first().map(|e| e.get_message()).unwrap_or_default())
+    });
+    let (rust_src, io) = match emitted {
+        Err(p) => {
+            res.stage = Stage::EmitPanicked;
+            res.note = p.sig();
+            return res;
+        }
+        Ok(Err(msg)) => {
+            res.stage = Stage::Refused;
+            res.note = norm(&msg);
+            return res;
+        }
+        Ok(Ok(x)) => x,
+    };
+    res.rust_lines = rust_src.lines().count();
+    res.has_call_main = rust_src.contains("pub fn call_main");
+    if let Some(io) = io
+        && (io.input as usize != ich || io.output as usize != och)
+    {
+        res.violations.push((
+            "io-channels-differ".into(),
+            format!("VM runs dsp with {ich} in / {och} out, RustOutput.io_channels says {} in / {} out", io.input, io.output),
+        ));
+    }
+
+    // 3. rustc
+    let mut inputs = Vec::with_capacity(c.n * ich);
+    for t in 0..c.n {
+        for ch in 0..ich {
+            inputs.push(inp(t, ch).to_bits());
+        }
+    }
+    let full = harness_main(&rust_src, c.n, ich, &inputs);
+    let dir = scratch_dir();
+    let _ = std::fs::remove_dir_all(&dir);
+    if let Err(e) = std::fs::create_dir_all(&dir) {
+        res.inconclusive = Some(format!("cannot create scratch dir: {e}"));
+        return res;
+    }
+    struct Cleanup(PathBuf, bool);
+    impl Drop for Cleanup {
+        fn drop(&mut self) {
+            if !self.1 {
+                let _ = std::fs::remove_dir_all(&self.0);
+            }
+        }
+    }
+    let _cleanup = Cleanup(dir.clone(), keep);
+    let src_path = dir.join("case.rs");
+    let bin_path = dir.join("case");
+    if let Err(e) = std::fs::write(&src_path, &full) {
+        res.inconclusive = Some(format!("cannot write generated source: {e}"));
+        return res;
+    }
+    let mut cmd = Command::new(rustc_path());
+    cmd.arg("--edition=2024")
+        .arg("-C")
+        .arg("opt-level=0")
+        .arg("-C")
+        .arg("debuginfo=0")
+        .arg("-C")
+        .arg("codegen-units=2")
+        .arg("--cap-lints")
+        .arg("allow")
+        .arg("case.rs")
+        .arg("-o")
+        .arg("case");
+    let rc = match run_child(cmd, &dir, "rustc", Duration::from_secs(RUSTC_TIMEOUT_S), RUSTC_AS_LIMIT) {
+        Ok(r) => r,
+        Err(e) => {
+            res.inconclusive = Some(format!("rustc could not be run: {e}"));
+            return res;
+        }
+    };
+    res.rustc_ms = rc.ms;
+    if rc.timed_out {
+        res.inconclusive = Some(format!("rustc did not finish within {RUSTC_TIMEOUT_S}s"));
+        return res;
+    }
+    if rc.signal.is_some() || rc.code != Some(0) {
+        let has_error_line = rc.stderr.lines().any(|l| l.starts_with("error"));
+        let resource = rc.stderr.contains("memory allocation of")
+            || rc.stderr.contains("out of memory")
+            || rc.stderr.contains("Cannot allocate memory")
+            || rc.stderr.contains("No space left")
+            || rc.stderr.contains("internal compiler error")
+            || rc.stderr.contains("Resource temporarily unavailable");
+        if rc.signal.is_some() || !has_error_line || resource || rc.code != Some(1) {
+            res.inconclusive = Some(format!(
+                "rustc ended abnormally (code {:?} signal {:?}): {}",
+                rc.code,
+                rc.signal,
+                rc.stderr.lines().take(3).collect::<Vec<_>>().join(" | ")
+            ));
+            return res;
+        }
+        res.stage = Stage::RustcFailed;
+        let head: String = rc.stderr.lines().take(24).collect::<Vec<_>>().join("\n");
+        res.violations.push((
+            format!("rustc-fails/{}", rustc_class(&rc.stderr)),
+            format!("emit_rust returned Ok ({} lines of Rust) but rustc --edition=2024 rejects the source:\n{head}", res.rust_lines),
+        ));
+        return res;
+    }
+    if !bin_path.exists() {
+        res.inconclusive = Some("rustc exited 0 without producing a binary".into());
+        return res;
+    }
+
+    // 4. run
+    let run = match run_child(Command::new(&bin_path), &dir, "run", Duration::from_secs(RUN_TIMEOUT_S), RUN_AS_LIMIT) {
+        Ok(r) => r,
+        Err(e) => {
+            res.inconclusive = Some(format!("generated binary could not be started: {e}"));
+            return res;
+        }
+    };
+    res.run_ms = run.ms;
+    if run.timed_out {
+        res.inconclusive = Some(format!("generated binary did not finish {} samples within {RUN_TIMEOUT_S}s (VM finished)", c.n));
+        return res;
+    }
+    if let Some(sig) = run.signal {
+        if sig == 9 {
+            res.inconclusive = Some("generated binary was killed (SIGKILL)".into());
+            return res;
+        }
+        if run.stderr.contains("memory allocation of") {
+            res.inconclusive = Some(format!("generated binary ran out of its {} GiB address space within {} samples (VM finished them)", RUN_AS_LIMIT >> 30, c.n));
+            return res;
+        }
+        let overflow = run.stderr.contains("has overflowed its stack");
+        res.stage = Stage::RunFailed;
+        res.violations.push((
+            format!("binary-dies/{}", if overflow { "stack overflow".to_string() } else { signame(sig) }),
+            format!("the compiled program died with {} (VM ran {} samples); stderr: {}", signame(sig), c.n, run.stderr.lines().take(6).collect::<Vec<_>>().join(" | ")),
+        ));
+        return res;
+    }
+    if run.code != Some(0) {
+        if run.stderr.contains("memory allocation of") {
+            res.inconclusive = Some(format!("generated binary ran out of its {} GiB address space within {} samples (VM finished them)", RUN_AS_LIMIT >> 30, c.n));
+            return res;
+        }
+        res.stage = Stage::RunFailed;
+        let printed = run.stdout.lines().filter(|l| l.starts_with('S')).count();
+        res.violations.push((
+            format!("binary-exits-nonzero/{}", run_class(&run.stderr)),
+            format!(
+                "the compiled program exited with status {:?} after printing {printed} of {} samples (VM ran them all); stderr: {}",
+                run.code,
+                c.n,
+                run.stderr.lines().take(6).collect::<Vec<_>>().join(" | ")
+            ),
+        ));
+        return res;
+    }
+
+    // 5. compare every output word
+    res.stage = Stage::Compared;
+    let lines: Vec<&str> = run.stdout.lines().filter(|l| l.starts_with('S')).collect();
+    if lines.len() != c.n {
+        res.violations.push(("sample-count-differs".into(), format!("binary printed {} sample lines, expected {}", lines.len(), c.n)));
+        return res;
+    }
+    'outer: for (t, l) in lines.iter().enumerate() {
+        let words: Vec<u64> = l.split_whitespace().skip(1).filter_map(|w| u64::from_str_radix(w, 16).ok()).collect();
+        if words.len() != och {
+            res.violations.push((
+                "output-word-count-differs".into(),
+                format!("sample {t}: call_dsp returned {} words, the VM's dsp has {och} output channels", words.len()),
+            ));
+            break 'outer;
+        }
+        res.samples_compared += 1;
+        for (k, w) in words.iter().enumerate() {
+            let v = vm.out[t * och + k];
+            let r = f64::from_bits(*w);
+            res.words_compared += 1;
+            if !bits_eq(v, r) {
+                let lo = t.saturating_sub(2);
+                let vmw: Vec<String> = (lo..=t).map(|tt| format!("{:?}", &vm.out[tt * och..(tt + 1) * och])).collect();
+                let rsw: Vec<String> = (lo..=t)
+                    .map(|tt| {
+                        let ws: Vec<f64> = lines[tt].split_whitespace().skip(1).filter_map(|w| u64::from_str_radix(w, 16).ok()).map(f64::from_bits).collect();
+                        format!("{ws:?}")
+                    })
+                    .collect();
+                res.violations.push((
+                    "output-differs".into(),
+                    format!(
+                        "sample {t} channel {k}: vm = {v:?} ({:#018x}) rust = {r:?} ({w:#018x}); window vm {} rust {}",
+                        v.to_bits(),
+                        vmw.join(" "),
+                        rsw.join(" ")
+                    ),
+                ));
+                break 'outer;
+            }
+        }
+    }
+    let first = vm.out.first().copied().unwrap_or(0.0);
+    res.nontrivial = res.violations.is_empty() && res.samples_compared == c.n && vm.out.iter().any(|x| !bits_eq(*x, first));
+    res
+}
+
+// ------------------------------------------------------------------ reporting
+
+/// JSON of a case for a violation event. serde_json refuses to parse documents nested
+/// deeper than 128 levels, and `--replay` parses the file before the property sees it: a
+/// case whose G-AST is that deep is stored without `prog` (the program text, which is all
+/// the oracle needs, stays).
+fn replayable(c: &Case) -> Value {
+    let v = serde_json::to_value(c).unwrap();
+    let txt = v.to_string();
+    let (mut depth, mut max, mut in_str, mut esc) = (0usize, 0usize, false, false);
+    for ch in txt.chars() {
+        if in_str {
+            if esc {
+                esc = false;
+            } else if ch == '\\' {
+                esc = true;
+            } else if ch == '"' {
+                in_str = false;
+            }
+            continue;
+        }
+        match ch {
+            '"' => in_str = true,
+            '[' | '{' => {
+                depth += 1;
+                max = max.max(depth);
+            }
+            ']' | '}' => depth = depth.saturating_sub(1),
+            _ => {}
+        }
+    }
+    if max > 110 {
+        let mut t = c.clone();
+        t.prog = None;
+        t.origin = Some(format!("{} (G-AST dropped: nested {max} levels deep)", c.origin.as_deref().unwrap_or("generated")));
+        return serde_json::to_value(&t).unwrap();
+    }
+    v
+}
+
+fn violations_of(c: &Case) -> Vec<(String, String)> {
+    check(c, false).violations
+}
+
+/// First hit of a signature in this worker is minimised (bounded: every evaluation is a
+/// rustc run), a few more are reported as they are, the rest only counted.
+fn report(args: &Args, out: &mut Out, idx: usize, c: &Case, found: &[(String, String)]) {
+    for (sig, detail) in found {
+        let key = format!("violations:{sig}");
+        let seen = out.counters.get(&key).copied().unwrap_or(0);
+        out.count(&key, 1);
+        if seen == 0 {
+            let known_class = sig == "binary-exits-nonzero/core-math-builtin-left-to-host" && args.q("rustgen-math-builtin-left-to-host");
+            let text_only_quick = c.prog.is_none() && !args.thorough();
+            let budget = if args.replay.is_some() || known_class || text_only_quick || std::env::var("MMV_C18_NOMIN").is_ok() { 0 } else if args.thorough() { 120 } else { 24 };
+            let t0 = Instant::now();
+            let limit = Duration::from_secs(if args.thorough() { 300 } else { 45 });
+            let evals = std::cell::Cell::new(0usize);
+            let oracle = |t: &Case| {
+                if t0.elapsed() > limit {
+                    return vec![];
+                }
+                evals.set(evals.get() + 1);
+                violations_of(t)
+            };
+            let small = if budget == 0 { c.clone() } else { minimise(c, sig, budget, &oracle) };
+            let d2 = if small.src == c.src { detail.clone() } else { violations_of(&small).into_iter().find(|v| &v.0 == sig).map(|v| v.1).unwrap_or(detail.clone()) };
+            out.count("minimiser_evaluations", evals.get() as u64);
+            out.violation(idx, sig, &format!("{d2}\n(minimised from a {}-byte program)", c.src.len()), &replayable(&small));
+        } else if seen < 3 {
+            out.violation(idx, sig, detail, &replayable(c));
+        }
+    }
+}
+
+fn exec_with(args: &Args) -> impl Fn(&Case, usize, &mut Out) -> bool + '_ {
+    move |c, idx, out| {
+        let keep = args.extra.contains_key("keep");
+        let r = check(c, keep);
+        let origin = c.origin.as_deref().unwrap_or(if c.prog.is_some() { "generated" } else { "witness" });
+        let okind = origin.split(':').next().unwrap_or("").to_string();
+        out.count(&format!("origin:{okind}"), 1);
+        if let Some(rw) = origin.strip_prefix("generated:rewritten-for(") {
+            for q in rw.trim_end_matches(')').split(',') {
+                out.count(&format!("generated_programs_rewritten_for_quarantine:{q}"), 1);
+            }
+        }
+        if let Some(w) = &r.inconclusive {
+            out.inconclusive(idx, w);
+            return false;
+        }
+        let stage = match r.stage {
+            Stage::VmRefused => "vm_refused_or_crashed(not_a_case)",
+            Stage::EmitPanicked => "emit_rust_panicked(not_judged)",
+            Stage::Refused => "emit_rust_refused",
+            Stage::RustcFailed => "rustc_failed",
+            Stage::RunFailed => "binary_failed",
+            Stage::Compared => "binary_ran_and_compared",
+            Stage::Undecided => "undecided",
+        };
+        out.count(&format!("outcome:{stage}"), 1);
+        out.count(&format!("outcome:{stage}/{okind}"), 1);
+        match r.stage {
+            Stage::VmRefused => out.set("vm_refusals", r.note.clone()),
+            Stage::EmitPanicked => out.set("emit_rust_panics", r.note.clone()),
+            Stage::Refused => out.set("refusal_messages", r.note.clone()),
+            _ => {}
+        }
+        let accepted = matches!(r.stage, Stage::RustcFailed | Stage::RunFailed | Stage::Compared);
+        if accepted {
+            out.count("emit_rust_ok", 1);
+            out.count("rustc_runs", 1);
+            out.count("rustc_ms_total", r.rustc_ms as u64);
+            out.count("rust_lines_compiled", r.rust_lines as u64);
+            if r.has_call_main {
+                out.count("programs_with_call_main", 1);
+            }
+            out.set("io_shapes(in/out)", format!("{}/{}", r.channels.0, r.channels.1));
+        }
+        if r.stage == Stage::Compared {
+            out.count("samples_compared", r.samples_compared as u64);
+            out.count("words_compared", r.words_compared as u64);
+        }
+        if !matches!(r.stage, Stage::VmRefused) {
+            for f in c.prog.iter().flat_map(|p| p.features.iter()) {
+                let what = match r.stage {
+                    Stage::Refused => "refused",
+                    Stage::EmitPanicked => "emit_panicked",
+                    Stage::Compared if r.violations.is_empty() => "agreed",
+                    _ => "accepted_but_wrong",
+                };
+                out.count(&format!("feature:{f}:{what}"), 1);
+            }
+        }
+        if okind == "table"
+            && let Some(f) = origin.split(':').nth(1)
+        {
+            out.set(if r.stage == Stage::Compared && r.violations.is_empty() { "operator_tables_agreed" } else { "operator_tables_not_agreed" }, f);
+        } else if okind != "generated"
+            && let Some(f) = origin.split(':').nth(1)
+        {
+            match r.stage {
+                Stage::Compared if r.violations.is_empty() => out.set("corpus_files_agreed", f),
+                Stage::Refused => out.set("corpus_files_refused", f),
+                Stage::VmRefused => out.set("corpus_files_not_a_case", f),
+                _ => {}
+            }
+        }
+        if !r.violations.is_empty() {
+            // keep the supervisor's stall detector informed while the minimiser runs rustc
+            out.emit(json!({"ev": "progress", "idx": idx, "what": "violation found, minimising"}));
+        }
+        report(args, out, idx, c, &r.violations);
+        r.nontrivial
+    }
+}
+
+
+// ------------------------------------------------------------------ fixed operator tables
+
+/// Hand-written programs that enumerate operator x operand-class grids from `now` (no
+/// inputs needed): every binary / unary numeric and logic operator over {-1.5 .. 1.5} x
+/// {-1.5 .. 1.5} and NaN/inf operands, every delay time 0..max+1 (integral and fractional),
+/// mem, scalar and tuple `self`, captured and assigned upvalues, function values with
+/// state, array indexing inside / outside the bounds. (name, samples, source)
+const TABLES: [(&str, usize, &str); 6] = [
+    (
+        "operators",
+        49,
+        "fn dsp(){\n  let i = now % 7\n  let j = ((now - i) / 7) % 7\n  let x = (i - 3) * 0.5\n  let y = (j - 3) * 0.5\n  let c = if (x) y else x + 10\n  let z = x / (y * 0)\n  (x % y, x / y, x ^ y, x && y, x || y, x < y, x <= y, x == y, x != y, -x, abs(x), sqrt(x), sin(x), cos(x), log(x), min(x,y), max(x,y), c, z % y, z && x, z || y, z < y, min(z, y), max(x, z), x > y, x >= y, (x + y) * (x - y))\n}\n",
+    ),
+    (
+        "delay_mem",
+        30,
+        "fn dsp(){\n  let i = now % 6\n  (delay(4, now, i), delay(4, now + 100, i * 0.5), delay(1, now, 0), mem(now), delay(3, now, 0 - 1), delay(5, mem(now), 4), delay(2, now, 1))\n}\n",
+    ),
+    (
+        "self_state",
+        12,
+        "fn cnt(){ self + 1 }\nfn acc(x)->(float,float){\n  let (a, b) = self\n  (a + x, b * 0.5 + x)\n}\nfn leak(x){ x + self * 0.5 }\nfn dsp(){\n  let c = cnt()\n  let a = acc(c)\n  (c, a.0, a.1, leak(c), leak(1.0), cnt())\n}\n",
+    ),
+    (
+        "closures",
+        10,
+        "fn mk(){\n  let c = 0.0\n  |x| {\n    c = c + x\n    c\n  }\n}\nfn adder(k){\n  |x| { x + k }\n}\nlet f = mk()\nlet add3 = adder(3.0)\nfn dsp(){\n  let g = mk()\n  (f(1.0), g(now), g(2.0), add3(now), adder(now)(1.0))\n}\n",
+    ),
+    (
+        "function_values",
+        10,
+        "fn fb(x){ x + self * 0.5 }\nfn twice(f:(float)->float, x){ f(f(x)) }\nfn pick(c){ if (c) fb else |y| { y * 2.0 } }\nfn dsp(){\n  let h = pick(now % 2)\n  (twice(fb, 1.0), twice(|y| { y * mem(y) }, now), h(3.0), now |> fb)\n}\n",
+    ),
+    (
+        "arrays",
+        12,
+        "let a = [10.0, 20.0, 30.0]\nfn dsp(){\n  let b = [now, now * 2.0, 7.0, 0.0 - now]\n  (a[now - 2], a[now * 0.5], b[1], b[now % 4], a[0 - 1], a[100])\n}\n",
+    ),
+];
+
+fn table_case(k: usize) -> Case {
+    let (name, n, src) = TABLES[k];
+    Case { src: src.to_string(), n, input_seed: 0, finite_inputs: true, prog: None, expect: None, scheduler: false, path: None, origin: Some(format!("table:{name}")), split: None }
+}
+
+// ------------------------------------------------------------------ workload
+
+/// the fixtures `run_all_annotated_fixtures_via_rust_codegen` runs: `// @test` header in
+/// the first 8 lines, not parser_combinators.mmm (plugin-backed ones are refused by the VM
+/// context used here, which has no plugins, and so are no C18 cases)
+fn is_rust_codegen_fixture(file: &Path, src: &str) -> bool {
+    file.to_string_lossy().contains("mimium-test/tests/mmm")
+        && src.lines().take(8).map(str::trim).any(|l| l.starts_with("// @test "))
+        && file.file_name().is_some_and(|n| n != "parser_combinators.mmm")
+}
+
+fn corpus_case(args: &Args, file: &Path, rng: &mut Rng) -> Option<Case> {
+    let src = std::fs::read_to_string(file).ok()?;
+    let name = file.file_name()?.to_string_lossy().to_string();
+    // `corpus:<file>` quarantines of other properties (leaks, WASM defects, crashes the VM
+    // side of this check turns into "not a case") do not concern the VM's output stream;
+    // C18 has its own names
+    if args.q(&format!("c18-corpus:{name}")) {
+        return None;
+    }
+    let kind = if is_rust_codegen_fixture(file, &src) { "fixture" } else { "corpus" };
+    Some(Case {
+        src,
+        n: *rng.pick(&[4usize, 12, 32]),
+        input_seed: rng.next(),
+        finite_inputs: true,
+        prog: None,
+        expect: None,
+        scheduler: false,
+        path: Some(file.to_string_lossy().to_string()),
+        origin: Some(format!("{kind}:{name}")),
+        split: None,
+    })
+}
+
+// ---- static quarantines of C18 (shapes with a registered known finding), applied to the
+// generated G-AST before printing: the construct stays in the program, only the narrow
+// shape that trips the known defect is rewritten.
+
+fn walk_block_mut(b: &mut Block, f: &mut dyn FnMut(&mut E)) {
+    for s in &mut b.stmts {
+        match s {
+            Stmt::Let(_, _, e) | Stmt::Assign(_, e) => walk_mut(e, f),
+        }
+    }
+    walk_mut(&mut b.result, f);
+}
+
+/// post-order mutable traversal
+fn walk_mut(e: &mut E, f: &mut dyn FnMut(&mut E)) {
+    match e {
+        E::Num(..) | E::Var(_) | E::FnRef(_) | E::SelfE | E::Now | E::SampleRate => {}
+        E::Bin(_, a, b) | E::PipeVal(a, b) => {
+            walk_mut(a, f);
+            walk_mut(b, f);
+        }
+        E::Neg(a) | E::Not(a) | E::Proj(a, _) | E::Field(a, _) | E::Mem(a, _) => walk_mut(a, f),
+        E::PipeFn { arg, .. } => walk_mut(arg, f),
+        E::Builtin(_, v) | E::Tuple(v) => v.iter_mut().for_each(|x| walk_mut(x, f)),
+        E::CallFn { args, .. } => args.iter_mut().for_each(|x| walk_mut(x, f)),
+        E::CallVal(c, v) => {
+            walk_mut(c, f);
+            v.iter_mut().for_each(|x| walk_mut(x, f));
+        }
+        E::If(c, a, b) => {
+            walk_mut(c, f);
+            walk_mut(a, f);
+            walk_mut(b, f);
+        }
+        E::Record(fs) => fs.iter_mut().for_each(|(_, x)| walk_mut(x, f)),
+        E::Lambda(_, b) | E::Block(b) => walk_block_mut(b, f),
+        E::Delay(_, x, t, _) => {
+            walk_mut(x, f);
+            walk_mut(t, f);
+        }
+    }
+    f(e);
+}
+
+fn walk_program_mut(p: &mut Program, f: &mut dyn FnMut(&mut E)) {
+    for (_, _, e) in p.pre_globals.iter_mut().chain(p.globals.iter_mut()) {
+        walk_mut(e, f);
+    }
+    for d in p.fns.iter_mut().chain(std::iter::once(&mut p.dsp)) {
+        walk_block_mut(&mut d.body, f);
+    }
+}
+
+fn ends_in_projection(e: &E) -> bool {
+    match e {
+        E::Proj(..) | E::Field(..) => true,
+        E::Block(b) => ends_in_projection(&b.result),
+        _ => false,
+    }
+}
+
+/// builtin functions of the VM that the emitted runtime's `call_ext` leaves to the host
+const HOST_MATH: [(&str, &str); 5] = [("floor", "abs"), ("ceil", "sqrt"), ("round", "sin"), ("tanh", "cos"), ("atan", "abs")];
+
+/// returns the names of the quarantines that changed the program
+fn apply_static_quarantines(args: &Args, p: &mut Program) -> Vec<&'static str> {
+    let mut hit = vec![];
+    if args.q("rustgen-math-builtin-left-to-host") {
+        let mut n = 0;
+        walk_program_mut(p, &mut |e| {
+            if let E::Builtin(name, _) = e
+                && let Some((_, to)) = HOST_MATH.iter().find(|(from, _)| from == name)
+            {
+                *name = to.to_string();
+                n += 1;
+            }
+        });
+        if n > 0 {
+            hit.push("rustgen-math-builtin-left-to-host");
+        }
+    }
+    if args.q("rustgen-projection-operand-of-mem-delay") {
+        let mut n = 0;
+        let mut wrap = |x: &mut Box<E>| {
+            if ends_in_projection(x) {
+                let inner = std::mem::replace(&mut **x, E::Now);
+                **x = E::Bin(BinOp::Mul, Box::new(inner), Box::new(E::Num(1.0, false)));
+                n += 1;
+            }
+        };
+        walk_program_mut(p, &mut |e| match e {
+            E::Mem(a, _) => wrap(a),
+            E::Delay(_, x, t, _) => {
+                wrap(x);
+                wrap(t);
+            }
+            _ => {}
+        });
+        if n > 0 {
+            hit.push("rustgen-projection-operand-of-mem-delay");
+        }
+    }
+    hit
+}
+
+fn gen_case(args: &Args, rng: &mut Rng) -> Case {
+    let mut feat = feat_for(args, rng);
+    // `%` is fmod on the VM and in the emitted Rust; the `modulo` quarantine is about WASM
+    feat.modulo = true;
+    // && / || / if on arbitrary operands: VM and emitted Rust both state "true iff > 0"
+    feat.raw_logic = rng.chance(1, 3);
+    let mut prog = generate(rng, feat);
+    let rewritten = apply_static_quarantines(args, &mut prog);
+    let src = prog.print();
+    let n = *rng.pick(&[8usize, 16, 24, 40]);
+    let finite = rng.chance(3, 4);
+    let origin = if rewritten.is_empty() { None } else { Some(format!("generated:rewritten-for({})", rewritten.join(","))) };
+    Case { src, n, input_seed: rng.next(), finite_inputs: finite, prog: Some(prog), expect: None, scheduler: false, path: None, origin, split: None }
+}
+
+fn budgets(args: &Args) -> (usize, usize) {
+    // (generated programs, corpus stride; stride 1 = every shipped file in both tiers)
+    if args.thorough() { (args.cases(0, 1500), 1) } else { (args.cases(64, 0), 1) }
+}
+
+pub fn meta(args: &Args) -> Value {
+    let (ngen, stride) = budgets(args);
+    json!({
+        "level": "exploration",
+        "rule": format!("differential VM vs compiled emitted Rust. Cases: (t) 6 fixed operator tables (hand-written programs enumerating, from `now`, every numeric/logic operator over a 7x7 operand grid incl. negative, zero, NaN and inf operands, delay times 0..max+1, mem, scalar/tuple self, upvalues, function values with state, array indices in and out of bounds); (a) {ngen} random well-typed core-language programs from the typed generator (all features the transpiler's documentation claims, `%` included; shapes listed under quarantined_features are not generated because the VM itself miscompiles them), n in 8..40 samples, seeded dsp inputs (1/4 of the cases with NaN/inf/-0.0/subnormals); (b) every shipped source of lib/, examples/, tests/mmm (stride {stride}) that is not quarantined by name, among them the fixtures rust_codegen_test.rs runs. Per case: run on the VM through the CLI's code path (a program the VM refuses or crashes on is no case), Context::emit_rust on a plugin-free ExecContext (Err = refusal = fine and counted; panic = counted, not judged), append a main modelled on rust_codegen_test.rs (host gives now = sample index, samplerate = 48000, errors on every external call; call_main if present; call_dsp per sample with that sample's input words), rustc --edition=2024 -C opt-level=0, run the binary. Refuting: rustc rejects the source; binary exits non-zero or dies by a signal; word count of a sample differs; any output word differs bitwise from the VM's (NaN == NaN). Non-trivial = emit_rust Ok, rustc Ok, binary exit 0, all n samples compared equal and the VM output stream has at least two distinct values; distinct = hash of program text + run parameters."),
+        "assumptions": [
+            "rustc on PATH (default toolchain) is the compiler the property means; linked against the same libm as the worker, so sin/cos/pow/ln agree bitwise if the same operation is applied",
+            "`now` counts samples from 0 and the sample rate is 48000, as LocalBufferDriver gives them to the VM",
+            "a host that answers every external call with an error (like TestHost of rust_codegen_test.rs / PanicHost): core programs make no plugin calls",
+            "NaN payload/sign is not compared",
+            "timeouts of rustc / of the binary, SIGKILL and resource exhaustion are inconclusive, never violations"
+        ],
+        "floor": {"quick": 30, "thorough": 500},
+        "case_timeout_s": 1500,
+        "hang_is_violation": false,
+        "crash_is_violation": false,
+        "deadline_s": if args.thorough() { 3 * 3600 } else { 900 },
+    })
+}
+
+pub fn run(args: &Args, out: &mut Out) {
+    if args.shard == 0 {
+        remove_stale_scratch_dirs();
+    }
+    let files = super::c01::corpus_files(&args.repo);
+    let (ngen, stride) = budgets(args);
+    // fixed operator tables, then shipped files (cheap to refuse), then generated programs
+    let picked: Vec<PathBuf> = files.iter().enumerate().filter(|(i, _)| (i + args.seed as usize) % stride == 0).map(|(_, f)| f.clone()).collect();
+    let ncorpus = picked.len();
+    let ntab = TABLES.len();
+    let total = ntab + ncorpus + ngen;
+    let exec = exec_with(args);
+    drive(
+        args,
+        out,
+        total,
+        |idx, rng| {
+            if idx < ntab {
+                Some(table_case(idx))
+            } else if idx < ntab + ncorpus {
+                corpus_case(args, &picked[idx - ntab], rng)
+            } else {
+                Some(gen_case(args, rng))
+            }
+        },
+        exec,
+    );
+    let _ = std::fs::remove_dir_all(scratch_dir());
+}
+
+pub fn replay(args: &Args, out: &mut Out, case: &Value) {
+    let exec = exec_with(args);
+    replay_one::<Case>(out, case, exec);
+    if !args.extra.contains_key("keep") {
+        let _ = std::fs::remove_dir_all(scratch_dir());
+    }
+}
